@@ -67,18 +67,56 @@ class CallMixin:
             b = self.truthy(self.ev1(e.args[1], st))
             return [(st, mk_bool(smt.Implies(a, b)))]
         if n == "old":
+            if self.old_state is None and self.in_old:
+                return [(st, self.ev1(e.args[0], st))]      # old() inside old(): already the entry state
             if self.old_state is None:
                 raise Unsupported("old() outside a postcondition")
             ost = self.old_state.copy()
             ost.pc = st.pc
             saved, self.old_state = self.old_state, None
+            self.in_old += 1
             try:
                 v = self.ev1(e.args[0], ost)
             finally:
                 self.old_state = saved
+                self.in_old -= 1
             return [(st, v)]
         if n in ("all", "any") and len(e.args) == 1 and isinstance(e.args[0], ast.GeneratorExp):
             return [(st, mk_bool(self.quantifier(n, e.args[0], st)))]
+        if n == "nonnull":
+            v = self.ev1(e.args[0], st)
+            return [(st, opt_inner(v) if v.ty.kind == "opt" else v)]
+        if n == "was_allocated":
+            v = self.ev1(e.args[0], st)
+            if v.ty.kind == "opt":
+                v = opt_inner(v)
+            return [(st, mk_bool(self.alloc0(v.ts[0])))]
+        if n == "all_absent":
+            d = self.ev1(e.args[0], st)
+            if d.ty.args[0].kind == "unknown":
+                return [(st, mk_bool(True))]
+            ks = flatten(d.ty.args[0])[0]
+            return [(st, mk_bool(smt.Eq(d.ts[0], T("((as const %s) false)" % smt.arr(ks, BOOL), smt.arr(ks, BOOL)))))]
+        if n == "dict_same_except":
+            d, d0, k = [self.ev1(a, st) for a in e.args]
+            kv = self.coerce(k, d.ty.args[0], st).ts[0]
+            conj = [smt.Eq(a, smt.Store(b, kv, smt.Select(a, kv))) for a, b in zip(d.ts, d0.ts)]
+            return [(st, mk_bool(smt.And(*conj)))]
+        if n == "unchanged_except":
+            # unchanged_except("field", obj): the field differs from its old value at most at obj
+            f = e.args[0].value
+            cur = self.heap_arr(st, f)
+            old = self.heap_arr(self.old_state, f) if self.old_state is not None else cur
+            allowed = list(old.ts)
+            for a_ in e.args[1:]:
+                obj = self.ev1(a_, st)
+                if obj.ty.kind == "opt":
+                    # a None exception changes nothing
+                    isn, obj = obj.ts[0], opt_inner(obj)
+                    allowed = [smt.Ite(isn, b, smt.Store(b, obj.ts[0], smt.Select(a, obj.ts[0]))) for a, b in zip(cur.ts, allowed)]
+                else:
+                    allowed = [smt.Store(b, obj.ts[0], smt.Select(a, obj.ts[0])) for a, b in zip(cur.ts, allowed)]
+            return [(st, mk_bool(smt.And(*[smt.Eq(a, b) for a, b in zip(cur.ts, allowed)])))]
         if n in ("re_matched", "re_start", "re_end", "re_group"):
             return [(st, self.re_macro(n, e, st))]
         if n == "is_digits":
@@ -141,14 +179,27 @@ class CallMixin:
         out = []
         for s, pos, kw in self.eval_args(e, st, exc):
             args = [self.coerce(v, parse_type(t), s) for v, (_, t) in zip(pos, sp["params"])]
-            out.append((s, self.spec_app(n, args)))
+            if sp.get("macro"):
+                # expanded in place: sees the heap of the state it is evaluated in
+                ms = s.copy()
+                ms.env = dict(self.ghost_env(s))
+                for (pn, _), a in zip(sp["params"], args):
+                    ms.env[pn] = a
+                v = self.ev1(ast.parse(sp["body"], mode="eval").body, ms)
+                for t in ms.pc[len(s.pc):]:
+                    s.assume(t)
+                out.append((s, self.coerce(v, parse_type(sp["ret"]), s)))
+            else:
+                out.append((s, self.spec_app(n, args, s)))
         return out
 
-    def spec_app(self, n, args):
+    def spec_app(self, n, args, st=None):
         sp = C.SPECS[n]
         self.define_spec(n)
         rty = parse_type(sp["ret"])
         flat = [t for a in args for t in a.ts]
+        for f in sp.get("heap", ()):
+            flat += self.heap_arr(st, f).ts if st is not None else []
         sorts = flatten(rty)
         if len(sorts) == 1:
             return SV(rty, [smt.app("spec_" + n, sorts[0], *flat)])
@@ -166,8 +217,15 @@ class CallMixin:
             ts = [T("%s_%d" % (pn, k) if len(flatten(ty)) > 1 else pn, s) for k, s in enumerate(flatten(ty))]
             st.env[pn] = SV(ty, ts)
             params += [(t.s, t.sort) for t in ts]
+        for f in sp.get("heap", ()):
+            fty = self.field_type(f)
+            arrs = [T("Hp_%s_%d" % (f, k), smt.arr(INT, srt)) for k, srt in enumerate(flatten(fty))]
+            st.heap[f] = SV(fty, arrs)
+            params += [(a.s, a.sort) for a in arrs]
+        self.spec_heap_params = {f: st.heap[f] for f in sp.get("heap", ())}
         rty = parse_type(sp["ret"])
         body = self.coerce(self.ev1(ast.parse(sp["body"], mode="eval").body, st), rty, st)
+        self.spec_heap_params = None
         if st.pc:
             raise Unsupported("spec function %s generated side conditions" % n)
         sorts = flatten(rty)
@@ -297,8 +355,15 @@ class CallMixin:
                     return c
         return None
 
-    def property_node(self, cls, attr):
-        """FunctionDef of a @property named attr in the (declared) class or its bases"""
+    def is_static(self, con):
+        try:
+            node = extract.find(con.id).node
+        except (KeyError, OSError):
+            return False
+        return any(isinstance(d, ast.Name) and d.id == "staticmethod" for d in node.decorator_list)
+
+    def property_node(self, cls, attr, setter=False):
+        """FunctionDef of a @property (or its setter) named attr in the (declared) class or its bases"""
         if cls is None:
             return None
         for k in self.mro(cls):
@@ -311,9 +376,11 @@ class CallMixin:
             if node is None:
                 continue
             for n in node.body:
-                if isinstance(n, ast.FunctionDef) and n.name == attr and any(
-                        isinstance(dd, ast.Name) and dd.id == "property" for dd in n.decorator_list):
-                    return n
+                if isinstance(n, ast.FunctionDef) and n.name == attr:
+                    if not setter and any(isinstance(dd, ast.Name) and dd.id == "property" for dd in n.decorator_list):
+                        return n
+                    if setter and any(isinstance(dd, ast.Attribute) and dd.attr == "setter" for dd in n.decorator_list):
+                        return n
         return None
 
     def call_value(self, fv, e, st, exc, src, pos=None, kw=None):
@@ -420,11 +487,7 @@ class CallMixin:
         for s, pos, kw in self.eval_args(e, st, exc):
             if name == "__new__":
                 clsv = pos[0]
-                r = self.ctx.fresh("new_obj", INT)
-                s.assume(smt.Gt(r, smt.Int(0)))
-                for o in self.known_refs(s):
-                    s.assume(smt.Not(smt.Eq(r, o)))
-                self.allocated.append(r)
+                r = self.new_ref(s, "new_obj")
                 s.assume(smt.Eq(self.typeof(r), clsv.ts[0]))
                 out.append((s, SV(Ref(clsv.py if isinstance(clsv.py, str) else None), [r])))
                 continue
@@ -466,7 +529,8 @@ class CallMixin:
         if k == "ref":
             con = self.find_method(recv.ty.cls, name)
             if con is not None:
-                return self.apply_contract(con, [recv] + pos, kw, st, exc, site="%s.%s" % (recv.ty.cls, name))
+                args = pos if self.is_static(con) else [recv] + pos
+                return self.apply_contract(con, args, kw, st, exc, site="%s.%s" % (recv.ty.cls, name))
             d = self.contract.calls.get("*." + name)
             if d is not None:
                 fake = ast.Call(func=ast.Name(id="m_" + name, ctx=ast.Load()), args=[], keywords=[])
@@ -532,7 +596,7 @@ class CallMixin:
             res = list(zip(names, defaults))
             for x, d in zip(a.kwonlyargs, a.kw_defaults):
                 res.append((x.arg, d))
-        except KeyError:
+        except (KeyError, OSError):
             res = [(n, None) for n in con.types]
         self.param_cache[con.id] = res
         return res
